@@ -1,6 +1,10 @@
 // hybridre2: regenerates coq/Generated/HybridRe2.v from the Go source of /repo (internal/hybridre2/*.go, non-test files):
 //
 //   - disabled_src            the value of the constant `disabled`
+//   - threshold_tree          the function behind `threshold` (sync.OnceValue(func() int64 {...})) path by path: conditions
+//                             "the variable is set" (second result of os.LookupEnv(<envThreshold>)), "it parsed" (`err == nil` for
+//                             strconv.ParseInt(<looked-up value>, 10, 64)); leaves return the parsed number or a constant
+//   - threshold_env_name      the name of the environment variable
 //   - re2_compiled_src thr    the condition under which Compile stores a program in the go-re2 field of Regexp
 //                             (conjunction of the conditions of the if statements enclosing that assignment)
 //   - use_re2_src thr len     the body of useRE2, statement by statement (`x := threshold()`, `x := <int expr>`,
@@ -54,6 +58,7 @@ type pkgInfo struct {
 	funcs   map[string]*ast.FuncDecl // plain functions
 	methods map[string]*ast.FuncDecl // Regexp methods
 	fields  map[string]string        // Regexp field name -> engine ("RE2"/"Grafana")
+	vars    map[string]ast.Expr      // package-level var name -> initialiser
 }
 
 func engineOfPath(p string) string {
@@ -72,7 +77,7 @@ func load(root string) *pkgInfo {
 	if err != nil {
 		die("%v", err)
 	}
-	pi := &pkgInfo{imports: map[string]string{}, consts: map[string]ast.Expr{}, funcs: map[string]*ast.FuncDecl{}, methods: map[string]*ast.FuncDecl{}, fields: map[string]string{}}
+	pi := &pkgInfo{imports: map[string]string{}, consts: map[string]ast.Expr{}, funcs: map[string]*ast.FuncDecl{}, methods: map[string]*ast.FuncDecl{}, fields: map[string]string{}, vars: map[string]ast.Expr{}}
 	var structType *ast.StructType
 	for _, e := range ents {
 		nm := e.Name()
@@ -97,10 +102,12 @@ func load(root string) *pkgInfo {
 				for _, s := range x.Specs {
 					switch sp := s.(type) {
 					case *ast.ValueSpec:
-						if x.Tok == token.CONST {
-							for i, n := range sp.Names {
-								if i < len(sp.Values) {
+						for i, n := range sp.Names {
+							if i < len(sp.Values) {
+								if x.Tok == token.CONST {
 									pi.consts[n.Name] = sp.Values[i]
+								} else {
+									pi.vars[n.Name] = sp.Values[i]
 								}
 							}
 						}
@@ -399,6 +406,246 @@ func containsRe2Assign(pi *pkgInfo, n ast.Node) bool {
 	return found
 }
 
+// ---- threshold(): how the setting is read
+
+type tleaf struct {
+	Ret  string   `json:"ret"`
+	Path []string `json:"path"`
+	Why  string   `json:"why,omitempty"`
+}
+
+type twalker struct {
+	pi      *pkgInfo
+	envName string
+	opaque  []string
+	leaves  []tleaf
+}
+
+func (pi *pkgInfo) stringConst(e ast.Expr) (string, bool) {
+	switch x := e.(type) {
+	case *ast.BasicLit:
+		if x.Kind == token.STRING {
+			s, err := strconv.Unquote(x.Value)
+			return s, err == nil
+		}
+	case *ast.Ident:
+		if c, ok := pi.consts[x.Name]; ok {
+			return pi.stringConst(c)
+		}
+	}
+	return "", false
+}
+
+func isLit(e ast.Expr, v string) bool {
+	bl, ok := e.(*ast.BasicLit)
+	return ok && bl.Kind == token.INT && bl.Value == v
+}
+
+// bind records what the identifiers defined by a statement stand for: "val" (the variable's text), "set", "parsed", "err"
+func (w *twalker) bind(s ast.Stmt, roles map[string]string) {
+	as, ok := s.(*ast.AssignStmt)
+	if !ok {
+		return
+	}
+	for _, l := range as.Lhs {
+		if id, ok := l.(*ast.Ident); ok {
+			delete(roles, id.Name)
+		}
+	}
+	if len(as.Rhs) != 1 {
+		return
+	}
+	ce, ok := as.Rhs[0].(*ast.CallExpr)
+	if !ok {
+		return
+	}
+	name := func(i int) string {
+		if i < len(as.Lhs) {
+			if id, ok := as.Lhs[i].(*ast.Ident); ok && id.Name != "_" {
+				return id.Name
+			}
+		}
+		return ""
+	}
+	switch w.pi.callee(ce.Fun) {
+	case "os.LookupEnv", "os.Getenv":
+		if len(ce.Args) == 1 {
+			if nm, ok := w.pi.stringConst(ce.Args[0]); ok {
+				if w.envName != "" && w.envName != nm {
+					return
+				}
+				w.envName = nm
+				if n := name(0); n != "" {
+					roles[n] = "val"
+				}
+				if n := name(1); n != "" && w.pi.callee(ce.Fun) == "os.LookupEnv" {
+					roles[n] = "set"
+				}
+			}
+		}
+	case "strconv.ParseInt":
+		if len(ce.Args) == 3 && isLit(ce.Args[1], "10") && isLit(ce.Args[2], "64") {
+			if id, ok := ce.Args[0].(*ast.Ident); ok && roles[id.Name] == "val" {
+				if n := name(0); n != "" {
+					roles[n] = "parsed"
+				}
+				if n := name(1); n != "" {
+					roles[n] = "err"
+				}
+			}
+		}
+	}
+}
+
+func (w *twalker) cond(e ast.Expr, roles map[string]string) string {
+	switch x := e.(type) {
+	case *ast.ParenExpr:
+		return w.cond(x.X, roles)
+	case *ast.Ident:
+		if x.Name == "true" {
+			return "TTrue"
+		}
+		if x.Name == "false" {
+			return "TFalse"
+		}
+		if roles[x.Name] == "set" {
+			return "TSet"
+		}
+	case *ast.UnaryExpr:
+		if x.Op == token.NOT {
+			return "(TNot " + w.cond(x.X, roles) + ")"
+		}
+	case *ast.BinaryExpr:
+		switch x.Op {
+		case token.LAND:
+			return fmt.Sprintf("(TAnd %s %s)", w.cond(x.X, roles), w.cond(x.Y, roles))
+		case token.LOR:
+			return fmt.Sprintf("(TOr %s %s)", w.cond(x.X, roles), w.cond(x.Y, roles))
+		case token.EQL, token.NEQ:
+			var other ast.Expr
+			if isNil(x.Y) {
+				other = x.X
+			} else if isNil(x.X) {
+				other = x.Y
+			}
+			if id, ok := other.(*ast.Ident); ok && roles[id.Name] == "err" {
+				if x.Op == token.EQL {
+					return "TParsedOk"
+				}
+				return "(TNot TParsedOk)"
+			}
+		}
+	}
+	w.opaque = append(w.opaque, src(e))
+	return fmt.Sprintf("(TOpaque %d)", len(w.opaque)-1)
+}
+
+func cloneRoles(m map[string]string) map[string]string {
+	n := map[string]string{}
+	for k, v := range m {
+		n[k] = v
+	}
+	return n
+}
+
+func (w *twalker) walk(stmts []ast.Stmt, roles map[string]string, path []string) string {
+	other := func(why string) string {
+		w.leaves = append(w.leaves, tleaf{Ret: "other", Path: path, Why: why})
+		return "TOther"
+	}
+	if len(stmts) == 0 {
+		return other("falls off the end of the function")
+	}
+	rest := stmts[1:]
+	switch s := stmts[0].(type) {
+	case *ast.BlockStmt:
+		return w.walk(append(append([]ast.Stmt{}, s.List...), rest...), roles, path)
+	case *ast.ReturnStmt:
+		if len(s.Results) == 1 {
+			if id, ok := s.Results[0].(*ast.Ident); ok && roles[id.Name] == "parsed" {
+				w.leaves = append(w.leaves, tleaf{Ret: "the parsed number", Path: path})
+				return "(TRet VParsed)"
+			}
+			if okExpr(w.pi, s.Results[0]) {
+				v := w.pi.intExpr(s.Results[0], map[string]string{})
+				w.leaves = append(w.leaves, tleaf{Ret: "constant " + v, Path: path})
+				return "(TRet (VConst " + v + "))"
+			}
+		}
+		return other("returns `" + src(s) + "`: neither the number parsed by strconv.ParseInt(<value of the variable>, 10, 64) nor a constant")
+	case *ast.IfStmt:
+		r := cloneRoles(roles)
+		if s.Init != nil {
+			w.bind(s.Init, r)
+		}
+		c := w.cond(s.Cond, r)
+		ct := src(s.Cond)
+		th := w.walk(append(append([]ast.Stmt{}, s.Body.List...), rest...), cloneRoles(r), append(append([]string{}, path...), ct))
+		var el []ast.Stmt
+		switch e := s.Else.(type) {
+		case nil:
+			el = rest
+		case *ast.BlockStmt:
+			el = append(append([]ast.Stmt{}, e.List...), rest...)
+		case *ast.IfStmt:
+			el = append([]ast.Stmt{e}, rest...)
+		}
+		// identifiers defined in the if's init are out of scope after it, but harmlessly kept for the else branch
+		return fmt.Sprintf("(TIf %s %s %s)", c, th, w.walk(el, cloneRoles(r), append(append([]string{}, path...), "!("+ct+")")))
+	case *ast.AssignStmt:
+		w.bind(s, roles)
+		return w.walk(rest, roles, path)
+	}
+	return other("unsupported statement `" + src(stmts[0]) + "`")
+}
+
+// okExpr: an integer expression made of literals, constants, conversions, + - *
+func okExpr(pi *pkgInfo, e ast.Expr) bool {
+	ok := true
+	ast.Inspect(e, func(n ast.Node) bool {
+		switch x := n.(type) {
+		case *ast.Ident:
+			if _, c := pi.consts[x.Name]; !c && !convs[x.Name] {
+				ok = false
+			}
+		case *ast.BasicLit:
+			if x.Kind != token.INT {
+				ok = false
+			}
+		case *ast.CallExpr:
+			if id, isID := x.Fun.(*ast.Ident); !isID || !convs[id.Name] {
+				ok = false
+			}
+		case *ast.BinaryExpr:
+			if x.Op != token.ADD && x.Op != token.SUB && x.Op != token.MUL {
+				ok = false
+			}
+		case *ast.SelectorExpr, *ast.IndexExpr, *ast.FuncLit:
+			ok = false
+		}
+		return ok
+	})
+	return ok
+}
+
+func (pi *pkgInfo) thresholdBody() *ast.BlockStmt {
+	if fd, ok := pi.funcs["threshold"]; ok && fd.Body != nil {
+		return fd.Body
+	}
+	e, ok := pi.vars["threshold"]
+	if !ok {
+		die("neither var threshold nor func threshold found")
+	}
+	if ce, ok := e.(*ast.CallExpr); ok && len(ce.Args) == 1 && strings.HasPrefix(pi.callee(ce.Fun), "sync.Once") {
+		e = ce.Args[0]
+	}
+	if fl, ok := e.(*ast.FuncLit); ok {
+		return fl.Body
+	}
+	die("var threshold is not sync.OnceValue(func() int64 {...}) or a function literal")
+	return nil
+}
+
 // ---- FindAllIndex: decision tree
 
 type leaf struct {
@@ -656,6 +903,9 @@ func main() {
 		die("const disabled not found")
 	}
 
+	tw := &twalker{pi: pi}
+	ttree := tw.walk(pi.thresholdBody().List, map[string]string{}, nil)
+
 	ci := pi.compile()
 
 	use := pi.funcs["useRE2"]
@@ -696,6 +946,15 @@ func main() {
 	sb.WriteString("(* GENERATED by translator/hybridre2 from internal/hybridre2/*.go (Compile, useRE2, Regexp.FindAllIndex) - do not edit *)\n")
 	sb.WriteString("From Coq Require Import ZArith Bool List String.\nFrom ZV Require Import Model.HybridReSyntax.\nImport ListNotations.\nLocal Open Scope Z_scope.\nLocal Open Scope bool_scope.\n\n")
 	sb.WriteString("(* const disabled *)\nDefinition disabled_src : Z := " + disabled + ".\n\n")
+	sb.WriteString("(* how threshold() reads " + tw.envName + " *)\nDefinition threshold_env_name : string := " + coqString(tw.envName) + "%string.\nDefinition threshold_tree : ttree :=\n  " + ttree + ".\n")
+	sb.WriteString("Definition threshold_opaque_conds : list string := [")
+	for i, o := range tw.opaque {
+		if i > 0 {
+			sb.WriteString("; ")
+		}
+		sb.WriteString(coqString(o))
+	}
+	sb.WriteString("]%string.\n\n")
 	sb.WriteString("(* Compile stores a go-re2 program in the Regexp iff ... (thr = threshold()) *)\nDefinition re2_compiled_src (thr : Z) : bool := " + ci.cond + ".\n\n")
 	sb.WriteString("(* func useRE2(inputLen) (thr = threshold()) *)\nDefinition use_re2_src (thr len : Z) : bool := " + useBody + ".\n\n")
 	sb.WriteString("(* (re *Regexp) FindAllIndex(" + w.b + ", " + w.n + ") path by path *)\nDefinition find_all_index_tree : dtree :=\n  " + tree + ".\n\n")
@@ -727,7 +986,7 @@ func main() {
 
 	for i := 2; i+1 < len(os.Args); i++ {
 		if os.Args[i] == "-json" {
-			js, _ := json.MarshalIndent(map[string]any{"leaves": w.leaves, "opaque_conds": w.opaque, "tree": tree,
+			js, _ := json.MarshalIndent(map[string]any{"leaves": w.leaves, "threshold_leaves": tw.leaves, "threshold_tree": ttree, "threshold_env_name": tw.envName, "opaque_conds": w.opaque, "tree": tree,
 				"re2_compiled_src": ci.cond, "use_re2_src": useBody, "compile_callees": ci.callees, "engine_packages": finds}, "", " ")
 			os.WriteFile(os.Args[i+1], js, 0o644)
 		}
